@@ -343,8 +343,8 @@ Section XOps.
         w <- xperform (XCrdWait total) ;;
         if negb w then XRet CrdErr else
         if negb (xg_getter g) then XRet CrdPanic else
-        d <- (if xg_caps g then xperform XDiscInvalidate else XRet true) ;;
-        if negb d then XRet CrdErr else
+        (* :198-208 Invalidate; ServerGroups - its answer is dropped *)
+        _d <- (if xg_caps g then xperform XDiscInvalidate else XRet true) ;;
         m <- xperform XMapperReset ;;
         XRet (if m then CrdOk else CrdErr)
     end.
